@@ -178,6 +178,9 @@ TASent ==
 TADropped == Is("a.dropped") /\ D2Fixed /\ apc[Ev.a] = "done" /\ aresp[Ev.a].put = FALSE /\ UNCHANGED vars /\ Keep /\ Adv
 TAResp == Is("a.resp") /\ apc[Ev.a] = "done" /\ aresp[Ev.a].kind = Ev.kind /\ UNCHANGED vars /\ Keep /\ Adv
 
+(* a metrics critical section was entered (lock probe, C20) *)
+TMLocked == Is("m.locked") /\ LockOK /\ UNCHANGED vars /\ Keep /\ Adv
+
 TTick == Is("tick") /\ (Tick \/ (~(\E p \in Proxies : ptimer[p] >= 0) /\ ~(\E c \in Clients : ctimer[c] >= 0) /\ UNCHANGED vars)) /\ Keep /\ Adv
 
 Ceil8(n) == ((n + 7) \div 8) * 8
@@ -220,7 +223,7 @@ TMetrics ==
 TNext ==
   \/ TReset \/ TAdd \/ TMatch \/ TOfferGate \/ TSent \/ TWOffer \/ TForwarded \/ TGot
   \/ TWTimeout \/ TWLocked \/ TWClaimed \/ TPResp \/ TCAnswer \/ TCTimeout \/ TCPre \/ TCCleanup \/ TCResp
-  \/ TALookup \/ TASendGate \/ TSilentSend \/ TSilentGet \/ TASent \/ TADropped \/ TAResp \/ TTick \/ TEnd \/ TMetrics
+  \/ TALookup \/ TASendGate \/ TSilentSend \/ TSilentGet \/ TASent \/ TADropped \/ TAResp \/ TTick \/ TEnd \/ TMetrics \/ TMLocked
 
 TSpec == TInit /\ [][TNext]_tvars
 
